@@ -48,11 +48,10 @@ Section G.
   Variable modr : Z -> arg -> pv atom -> pv atom.
   Variable modl : Z -> arg -> atom.
   Variable post : postk -> pv atom -> result (pv atom).
-  Variable truthy : Z -> bool.
 
-  Local Notation step' := (step arg atom src modr modl post truthy).
-  Local Notation run' := (run arg atom src modr modl post truthy).
-  Local Notation call' := (call arg atom src modr modl post truthy).
+  Local Notation step' := (step arg atom src modr modl post).
+  Local Notation run' := (run arg atom src modr modl post).
+  Local Notation call' := (call arg atom src modr modl post).
   Local Notation apply' := (apply_muts arg atom modr modl).
   Local Notation rtrace := (replace_trace arg atom modr).
 
@@ -101,9 +100,9 @@ Section G.
     destruct o as [n' s c k | n' m | n' | n' a skip]; simpl mods_of.
     - rewrite app_nil_r. simpl. unfold register_producer.
       destruct (Z.eq_dec n' n) as [->|Hne].
-      + destruct (p_source (get_pipe r n)) as [s0|]; [destruct (truthy s0)|]; simpl; try reflexivity;
+      + destruct (p_source (get_pipe r n)) as [s0|]; simpl; try reflexivity;
           now rewrite get_set_same.
-      + destruct (p_source (get_pipe r n')) as [s0|]; [destruct (truthy s0)|]; simpl; try reflexivity;
+      + destruct (p_source (get_pipe r n')) as [s0|]; simpl; try reflexivity;
           now rewrite get_set_other.
     - simpl. destruct (Z.eqb_spec n' n) as [->|Hne].
       + now rewrite get_set_same.
@@ -138,7 +137,7 @@ Section G.
   Proof.
     destruct o as [n' s c k | n' m | n' | n' a skip]; simpl first_producer; intros H.
     - destruct (Z.eqb_spec n' n) as [->|Hne]; [discriminate|]. simpl. unfold register_producer.
-      destruct (p_source (get_pipe r n')) as [s0|]; [destruct (truthy s0)|]; simpl; try reflexivity;
+      destruct (p_source (get_pipe r n')) as [s0|]; simpl; try reflexivity;
         now rewrite get_set_other.
     - simpl. destruct (Z.eq_dec n' n) as [->|Hne]; [now rewrite get_set_same | now rewrite get_set_other].
     - now rewrite get_value_inert.
@@ -147,20 +146,20 @@ Section G.
 
   (* once a (truthy) source is there, nothing changes it *)
   Lemma step_skp_sourced r o n :
-    has_source truthy (get_pipe r n) = true -> skp (get_pipe (fst (step' r o)) n) = skp (get_pipe r n).
+    has_source (get_pipe r n) = true -> skp (get_pipe (fst (step' r o)) n) = skp (get_pipe r n).
   Proof.
     intros Hs. destruct (first_producer n [o]) as [[[s c] k]|] eqn:E; [|now apply step_skp_other].
     destruct o as [n' s' c' k' | | |]; simpl in E; try discriminate.
     destruct (Z.eqb_spec n' n) as [->|]; [|discriminate].
     simpl. unfold register_producer. unfold has_source in Hs.
-    destruct (p_source (get_pipe r n)) as [s0|]; [|discriminate]. now rewrite Hs.
+    destruct (p_source (get_pipe r n)) as [s0|]; [|discriminate]. reflexivity.
   Qed.
 
-  Lemma has_source_skp p p' : skp p = skp p' -> has_source truthy p = has_source truthy p'.
+  Lemma has_source_skp p p' : skp p = skp p' -> has_source p = has_source p'.
   Proof. unfold skp, has_source. now intros [= -> _ _]. Qed.
 
   Lemma run_skp_sourced ops : forall r n,
-    has_source truthy (get_pipe r n) = true -> skp (get_pipe (fst (run' r ops)) n) = skp (get_pipe r n).
+    has_source (get_pipe r n) = true -> skp (get_pipe (fst (run' r ops)) n) = skp (get_pipe r n).
   Proof.
     induction ops as [|o t IH]; intros r n Hs; [reflexivity|].
     rewrite run_cons_fst. pose proof (step_skp_sourced r o n Hs) as E.
@@ -169,14 +168,11 @@ Section G.
 
   (* a second source: rejected, and the registry is the very same *)
   Theorem second_source_rejected r n s c k :
-    has_source truthy (get_pipe r n) = true -> step' r (RegisterProducer n s c k) = (r, ORejected EDynamicValue).
+    has_source (get_pipe r n) = true -> step' r (RegisterProducer n s c k) = (r, ORejected EDynamicValue).
   Proof.
     unfold has_source. simpl. unfold register_producer. intros H.
-    destruct (p_source (get_pipe r n)) as [s0|]; [|discriminate]. now rewrite H.
+    destruct (p_source (get_pipe r n)) as [s0|]; [|discriminate]. reflexivity.
   Qed.
-
-  Section AllTruthy.
-    Hypothesis Htruthy : forall s, truthy s = true.
 
     Theorem run_first_producer ops : forall r n, p_source (get_pipe r n) = None ->
       match first_producer n ops with
@@ -192,7 +188,7 @@ Section G.
         assert (G : get_pipe (fst (step' r (RegisterProducer n s c k))) n =
                     {| p_source := Some s; p_muts := p_muts (get_pipe r n); p_comb := c; p_post := k |}).
         { simpl. unfold register_producer. rewrite Hn. simpl. apply get_set_same. }
-        rewrite run_skp_sourced; [now rewrite G|]. rewrite G. unfold has_source. simpl. apply Htruthy.
+        rewrite run_skp_sourced; [now rewrite G|]. rewrite G. reflexivity.
       - pose proof (step_skp_other r o n E) as E1.
         assert (Hn' : p_source (get_pipe (fst (step' r o)) n) = None).
         { unfold skp in E1. injection E1 as -> _ _. exact Hn. }
@@ -200,11 +196,11 @@ Section G.
     Qed.
 
     Lemma sourced_after ops n : first_producer n ops <> None ->
-      has_source truthy (get_pipe (fst (run' [] ops)) n) = true.
+      has_source (get_pipe (fst (run' [] ops)) n) = true.
     Proof.
       intros H. pose proof (run_first_producer ops [] n eq_refl) as R.
       destruct (first_producer n ops) as [[[s c] k]|]; [|contradiction].
-      unfold skp in R. injection R as R _ _. unfold has_source. rewrite R. apply Htruthy.
+      unfold skp in R. injection R as R _ _. unfold has_source. now rewrite R.
     Qed.
 
     (* the whole registry statement, over every history that starts from the empty registry *)
@@ -226,7 +222,6 @@ Section G.
         + now injection R as -> _ _.
       - intros pre s c k rest _ Hp. apply second_source_rejected. now apply sourced_after.
     Qed.
-  End AllTruthy.
 
   (* ---------- the call ---------- *)
   Lemma apply_replace ms a : forall tr v,
@@ -256,31 +251,31 @@ Section G.
     if post_applies p skip then post (p_post p) v else Ok v.
 
   Theorem call_replace p s a skip :
-    p_source p = Some s -> truthy s = true -> p_comb p = CReplace ->
+    p_source p = Some s -> p_comb p = CReplace ->
     let v := fold_left (fun x m => modr m a x) (p_muts p) (src s a) in
     call' p a skip = (ESrc s a :: rtrace a (p_muts p) (src s a) ++ post_events p skip v, post_value p skip v).
   Proof.
-    intros Hs Ht Hc. cbv zeta. unfold call, post_events, post_value. rewrite Hs, Ht, Hc, apply_replace. simpl.
+    intros Hs Hc. cbv zeta. unfold call, post_events, post_value. rewrite Hs, Hc, apply_replace. simpl.
     destruct (post_applies p skip); [reflexivity | now rewrite app_nil_r].
   Qed.
 
   Theorem call_list p s a skip l0 :
-    p_source p = Some s -> truthy s = true -> p_comb p = CList -> src s a = Many l0 ->
+    p_source p = Some s -> p_comb p = CList -> src s a = Many l0 ->
     let v := Many (l0 ++ map (fun m => modl m a) (p_muts p)) in
     call' p a skip = (ESrc s a :: map (fun m => EMod m a None) (p_muts p) ++ post_events p skip v, post_value p skip v).
   Proof.
-    intros Hs Ht Hc Hl. cbv zeta. unfold call, post_events, post_value. rewrite Hs, Ht, Hc, Hl, apply_list. simpl.
+    intros Hs Hc Hl. cbv zeta. unfold call, post_events, post_value. rewrite Hs, Hc, Hl, apply_list. simpl.
     destruct (post_applies p skip); [reflexivity | now rewrite app_nil_r].
   Qed.
 
   Theorem call_list_on_scalar p s a skip x m t :
-    p_source p = Some s -> truthy s = true -> p_comb p = CList -> src s a = One x -> p_muts p = m :: t ->
+    p_source p = Some s -> p_comb p = CList -> src s a = One x -> p_muts p = m :: t ->
     call' p a skip = ([ESrc s a], Rejected EOther).
-  Proof. intros Hs Ht Hc Hl Hm. unfold call. now rewrite Hs, Ht, Hc, Hl, Hm, apply_list_scalar. Qed.
+  Proof. intros Hs Hc Hl Hm. unfold call. now rewrite Hs, Hc, Hl, Hm, apply_list_scalar. Qed.
 
-  Theorem call_no_source p a skip : has_source truthy p = false -> call' p a skip = ([], Rejected EDynamicValue).
+  Theorem call_no_source p a skip : has_source p = false -> call' p a skip = ([], Rejected EDynamicValue).
   Proof.
-    unfold has_source, call. destruct (p_source p) as [s|]; [|reflexivity]. now intros ->.
+    unfold has_source, call. destruct (p_source p) as [s|]; [discriminate | reflexivity].
   Qed.
 
   (* exactly once, in order - independent of the combiner *)
@@ -309,7 +304,6 @@ Section G.
               post_ids tr = (if post_applies p skip then [p_post p] else []).
   Proof.
     unfold call. destruct (p_source p) as [s|]; [|discriminate].
-    destruct (truthy s); [|discriminate]. simpl negb. cbv iota.
     destruct (apply' (p_comb p) (p_muts p) a [ESrc s a] (src s a)) as [tr0 [v0|e|]] eqn:E; try discriminate.
     apply apply_ids in E. destruct E as [E1 [E2 E3]]. simpl in E1, E2, E3.
     destruct (post_applies p skip); intros H; injection H as <- Hv; exists s; split; try reflexivity.
@@ -322,7 +316,6 @@ Section G.
     exists s rest, p_source p = Some s /\ tr = ESrc s a :: rest.
   Proof.
     unfold call. destruct (p_source p) as [s|]; [|now intros [= <- _] H].
-    destruct (truthy s); simpl negb; cbv iota; [|now intros [= <- _] H].
     assert (G : forall c ms tr0 v tr1 rv1, apply' c ms a (ESrc s a :: tr0) v = (tr1, rv1) -> exists rest, tr1 = ESrc s a :: rest).
     { intros c ms. induction ms as [|m t IH]; intros tr0 v tr1 rv1 H; simpl in H.
       - injection H as <- _. eauto.
@@ -336,9 +329,6 @@ Section G.
   Qed.
 
   (* ---------- history, then call ---------- *)
-  Section AllTruthy2.
-    Hypothesis Htruthy : forall s, truthy s = true.
-
     Theorem history_call_replace ops n s k a skip :
       first_producer n ops = Some (s, CReplace, k) ->
       let ms := mods_of n ops in
@@ -349,9 +339,9 @@ Section G.
          OCalled (ESrc s a :: rtrace a ms (src s a) ++ (if applies then [EPost k v] else []))
                  (if applies then post k v else Ok v)).
     Proof.
-      intros Hf. cbv zeta. destruct (registry_history Htruthy ops n) as [Hm [Hs _]]. rewrite Hf in Hs.
+      intros Hf. cbv zeta. destruct (registry_history ops n) as [Hm [Hs _]]. rewrite Hf in Hs.
       destruct Hs as [Hs [Hc Hk]]. simpl.
-      rewrite (call_replace _ s a skip Hs (Htruthy s) Hc). unfold post_events, post_value, post_applies.
+      rewrite (call_replace _ s a skip Hs Hc). unfold post_events, post_value, post_applies.
       now rewrite Hm, Hk.
     Qed.
 
@@ -365,9 +355,9 @@ Section G.
          OCalled (ESrc s a :: map (fun m => EMod m a None) ms ++ (if applies then [EPost k v] else []))
                  (if applies then post k v else Ok v)).
     Proof.
-      intros Hf Hl. cbv zeta. destruct (registry_history Htruthy ops n) as [Hm [Hs _]]. rewrite Hf in Hs.
+      intros Hf Hl. cbv zeta. destruct (registry_history ops n) as [Hm [Hs _]]. rewrite Hf in Hs.
       destruct Hs as [Hs [Hc Hk]]. simpl.
-      rewrite (call_list _ s a skip l0 Hs (Htruthy s) Hc Hl). unfold post_events, post_value, post_applies.
+      rewrite (call_list _ s a skip l0 Hs Hc Hl). unfold post_events, post_value, post_applies.
       now rewrite Hm, Hk.
     Qed.
 
@@ -375,37 +365,42 @@ Section G.
       first_producer n ops = None ->
       step' (fst (run' [] ops)) (Call n a skip) = (fst (run' [] ops), OCalled [] (Rejected EDynamicValue)).
     Proof.
-      intros Hf. destruct (registry_history Htruthy ops n) as [_ [Hs _]]. rewrite Hf in Hs. simpl.
+      intros Hf. destruct (registry_history ops n) as [_ [Hs _]]. rewrite Hf in Hs. simpl.
       rewrite call_no_source; [reflexivity|]. unfold has_source. now rewrite Hs.
     Qed.
-  End AllTruthy2.
 End G.
 
-(* the falsy-source defect, on the faithful model: with a source callable whose truth value is False the second
-   registration is answered with an error (ResourceError) AND replaces source, combiner and post-processor; and a
-   pipeline whose only source is falsy refuses every call *)
-Definition unit_step (tr : Z -> bool) :=
-  step unit unit (fun _ _ => One tt) (fun _ _ v => v) (fun _ _ => tt) (fun _ v => Ok v) tr.
-Definition unit_run (tr : Z -> bool) :=
-  run unit unit (fun _ _ => One tt) (fun _ _ v => v) (fun _ _ => tt) (fun _ v => Ok v) tr.
-
-Theorem second_source_inert_refuted :
+(* what was wrong with the truthiness test (finding F-Y, fixed in e7ddbc13) - statements about [OldTruthiness], the
+   model of the code before the fix: with a source callable whose truth value is False, a second registration was
+   answered with an error (ResourceError) AND replaced source, combiner and post-processor; and a pipeline whose only
+   source was falsy refused every call *)
+Theorem old_second_source_not_inert :
   exists (tr : Z -> bool) (r : registry) n s c k e,
     p_source (get_pipe r n) <> None /\
-    unit_step tr r (RegisterProducer n s c k) = (set_pipe r n {| p_source := Some s; p_muts := p_muts (get_pipe r n); p_comb := c; p_post := k |}, ORejected e) /\
-    get_pipe (fst (unit_step tr r (RegisterProducer n s c k))) n <> get_pipe r n.
+    OldTruthiness.old_register_producer tr r n s c k =
+      (set_pipe r n {| p_source := Some s; p_muts := p_muts (get_pipe r n); p_comb := c; p_post := k |}, Some e) /\
+    get_pipe (fst (OldTruthiness.old_register_producer tr r n s c k)) n <> get_pipe r n.
 Proof.
-  exists (fun _ => false), (fst (unit_run (fun _ => false) [] [RegisterProducer 1 10 CReplace PNone; RegisterModifier 1 20])),
+  exists (fun _ => false), [(1, {| p_source := Some 10; p_muts := [20]; p_comb := CReplace; p_post := PNone |})],
     1, 11, CList, PUnion, EResource.
   vm_compute. repeat split; discriminate.
 Qed.
 
-Theorem sourced_call_refuted :
-  exists (tr : Z -> bool) ops n,
-    first_producer n ops <> None /\
-    snd (unit_step tr (fst (unit_run tr [] ops)) (Call n tt false)) = OCalled [] (Rejected EDynamicValue).
+Theorem old_sourced_call_refused :
+  exists (tr : Z -> bool) p, p_source p <> None /\ OldTruthiness.old_call_refused tr p = true.
 Proof.
-  exists (fun _ => false), [RegisterProducer 1 10 CReplace PNone], 1. vm_compute. split; [discriminate | reflexivity].
+  exists (fun _ => false), {| p_source := Some 10; p_muts := []; p_comb := CReplace; p_post := PNone |}.
+  vm_compute. split; [discriminate | reflexivity].
+Qed.
+
+(* with truthy callables only, the old code is the new code *)
+Theorem old_register_producer_truthy (tr : Z -> bool) r n s c k : (forall x, tr x = true) ->
+  OldTruthiness.old_register_producer tr r n s c k =
+    (fst (register_producer unit unit r n s c k),
+     match snd (register_producer unit unit r n s c k) with ORejected e => Some e | _ => None end).
+Proof.
+  intros H. unfold OldTruthiness.old_register_producer, register_producer.
+  destruct (p_source (get_pipe r n)) as [s0|]; [now rewrite H | reflexivity].
 Qed.
 
 (* ================================================================================================================ *)
